@@ -92,6 +92,47 @@ class _NotBoolean(Exception):
     """the gate expression uses something outside the boolean abstraction"""
 
 
+def _coll(e):
+    """'blacklist' / 'whitelist' when `e` denotes that collection: the name itself, frozenset(X) / set / tuple / list of
+    it, or `X or ()` / `X or iter(())` / `X or []` (an absent list is an empty one)"""
+    if isinstance(e, ast.Name) and e.id in ("blacklist", "whitelist"):
+        return e.id
+    if isinstance(e, ast.Call) and isinstance(e.func, ast.Name) and e.func.id in ("frozenset", "set", "tuple", "list") and len(e.args) == 1 and not e.keywords:
+        return _coll(e.args[0])
+    if isinstance(e, ast.BoolOp) and isinstance(e.op, ast.Or) and len(e.values) == 2:
+        empty = e.values[1]
+        is_empty = (isinstance(empty, (ast.Tuple, ast.List)) and not empty.elts) or norm(empty) in ("iter(())", "frozenset()", "set()", "tuple()")
+        if is_empty:
+            return _coll(e.values[0])
+    return None
+
+
+def _function_as_expression(h, expand):
+    """
+    the value returned by a small predicate function as ONE expression: `if C: return A` followed by `return B`
+    becomes `A if C else B`; single-definition locals are expanded. None when the body has any other shape.
+    """
+    body = [st for st in h.node.body if not (isinstance(st, ast.Expr) and isinstance(st.value, ast.Constant))]
+
+    def fold_block(stmts):
+        if not stmts:
+            return None
+        st, rest = stmts[0], stmts[1:]
+        if isinstance(st, (ast.Assign, ast.AnnAssign)):
+            return fold_block(rest)
+        if isinstance(st, ast.Return) and st.value is not None:
+            return expand(h, st.value)
+        if isinstance(st, ast.If):
+            a = fold_block(st.body)
+            b = fold_block(st.orelse + rest) if st.orelse else fold_block(rest)
+            if a is None or b is None:
+                return None
+            return ast.IfExp(test=expand(h, st.test), body=a, orelse=b)
+        return None
+
+    return fold_block(body)
+
+
 def _beval(e, a):
     """
     evaluate the gate expression under truth assignment `a` of the atoms
@@ -116,10 +157,12 @@ def _beval(e, a):
         raise _NotBoolean(t)
     if isinstance(e, ast.Call) and isinstance(e.func, ast.Name) and e.func.id == "bool" and len(e.args) == 1:
         return _beval(e.args[0], a)
-    if isinstance(e, ast.Name) and e.id in ("blacklist", "whitelist"):
-        return not a["eB" if e.id == "blacklist" else "eW"]
+    if _coll(e) is not None:
+        return not a["eB" if _coll(e) == "blacklist" else "eW"]
     if isinstance(e, ast.Compare) and len(e.ops) == 1:
         left, op, right = norm(e.left), e.ops[0], norm(e.comparators[0])
+        if _coll(e.comparators[0]) is not None:
+            right = _coll(e.comparators[0])
         if left == a.get("subject", "mod_path") and right in ("blacklist", "whitelist") and isinstance(op, (ast.In, ast.NotIn)):
             v = a["B" if right == "blacklist" else "W"]
             return v if isinstance(op, ast.In) else not v
@@ -279,7 +322,9 @@ def _srcguard(ctx, index):
                 tg = n.targets if isinstance(n, ast.Assign) else [n.target]
                 if not any(isinstance(t, ast.Name) and t.id == flag for t in tg):
                     continue
-                v = n.value
+                from ..defuse import expand_aliases as _expand
+
+                v = _expand(f, n.value, keep={flag})
                 n_defs += 1
                 if isinstance(v, ast.Call) and norm(v.func).rpartition(".")[2] == "isfile" and len(v.args) == 1:
                     ctx.ob("C20.srcguard", f, n, True, line=n.lineno)
@@ -462,22 +507,62 @@ def run(ctx):
     # --------------------------------------------------------------- gate
     esf = index.func("cdd.compound.exmod.exmod_single_folder")
     ctx.need(gate_sites, "no write sites found in exmod_single_folder")
-    # the gate: the one local whose (single) definition tests membership in both the blacklist and the whitelist
-    # parameters, whatever it is called; the subject of the membership tests is the module being considered
+    # the gate, in one of two spellings:
+    #  (a) the one local whose (single) definition tests membership in both the blacklist and the whitelist
+    #      parameters, whatever it is called; the subject of the membership tests is the module being considered
+    #  (b) a predicate function of this module that is handed the module, the blacklist and the whitelist and whose
+    #      return paths test membership in both — the fact is then the call itself
+    from ..defuse import expand_aliases
+
+    def membership(expr):
+        mem = [
+            c
+            for c in ast.walk(expr)
+            if isinstance(c, ast.Compare) and len(c.ops) == 1 and isinstance(c.ops[0], (ast.In, ast.NotIn)) and _coll(c.comparators[0]) in ("blacklist", "whitelist")
+        ]
+        return {_coll(c.comparators[0]) for c in mem}, {norm(c.left) for c in mem}
+
     pa = []
     for n in iter_own(esf.node):
         if isinstance(n, (ast.Assign, ast.AnnAssign)) and n.value is not None:
             t = n.targets[0] if isinstance(n, ast.Assign) else n.target
             if isinstance(t, ast.Name):
-                mem = [
-                    c
-                    for c in ast.walk(n.value)
-                    if isinstance(c, ast.Compare) and len(c.ops) == 1 and isinstance(c.ops[0], (ast.In, ast.NotIn)) and norm(c.comparators[0]) in ("blacklist", "whitelist")
-                ]
-                if {norm(c.comparators[0]) for c in mem} == {"blacklist", "whitelist"}:
-                    pa.append((n, t.id, {norm(c.left) for c in mem}))
+                colls, subjects = membership(n.value)
+                if colls == {"blacklist", "whitelist"}:
+                    pa.append((t.id, n.value, subjects, n.lineno))
+        elif isinstance(n, ast.Call):
+            h = index.funcs.get(index.callee(esf.mod, n, esf) or "")
+            if h is None or h.mod is not esf.mod:
+                continue
+            bound = {}
+            for i, a in enumerate(n.args):
+                if i < len(h.params):
+                    bound[h.params[i]] = a
+            for k in n.keywords:
+                if k.arg:
+                    bound[k.arg] = k.value
+            roles = {p_: norm(a) for p_, a in bound.items() if norm(a) in ("blacklist", "whitelist")}
+            if set(roles.values()) != {"blacklist", "whitelist"}:
+                continue
+            # the predicate as one expression: fold the early returns of the helper into nested conditionals
+            body = _function_as_expression(h, expand_aliases)
+            if body is None:
+                continue
+
+            class Ren(ast.NodeTransformer):
+                def visit_Name(self, x):
+                    if x.id in bound and isinstance(x.ctx, ast.Load):
+                        import copy
+
+                        return copy.deepcopy(bound[x.id])
+                    return x
+
+            expr = Ren().visit(body)
+            colls, subjects = membership(expr)
+            if colls == {"blacklist", "whitelist"}:
+                pa.append((" ".join(norm(n).split()), expr, subjects, n.lineno))
     ctx.need(len(pa) == 1, "expected exactly one definition of the blacklist/whitelist gate in exmod_single_folder, found {}".format(len(pa)))
-    gate_assign, gate_var, subjects = pa[0]
+    gate_var, gate_expr, subjects, gate_line = pa[0]
     ctx.need(len(subjects) == 1, "the gate tests different subjects against the two lists: {}".format(sorted(subjects)))
     for f, node, kind, target, facts in gate_sites:
         ok = facts.get(gate_var) is True
@@ -488,8 +573,8 @@ def run(ctx):
             ok,
             "" if ok else "write site not dominated by the blacklist/whitelist gate",
         )
-    ctx.ob("C20.gate", esf, "the gate depends on blacklist, whitelist and the module path", True, line=gate_assign.lineno)
-    _gate_truth_table(ctx, esf, gate_assign, subject=next(iter(subjects)))
+    ctx.ob("C20.gate", esf, "the gate depends on blacklist, whitelist and the module path", True, line=gate_line)
+    _gate_truth_table(ctx, esf, ast.Assign(targets=[], value=gate_expr, lineno=gate_line), subject=next(iter(subjects)))
     fp = [
         n
         for n in iter_own(entry.node)
